@@ -798,3 +798,61 @@ func scanExitsOnly(c *Ctx, r *Report, rule string, fnames []string, consequence 
 		r.ok(rule, "no backward scan", "", "the label helpers carry a run counter forward (decided under the scan-start rule)")
 	}
 }
+
+// readErrorNotOverwritten: once Transfer.ReadMsg has read (part of) a message, the error of that read can only be
+// replaced by another error, never by a later step's nil: every other value that can reach the error it returns
+// together with the message is known non-nil where it is taken (a verification that succeeded leaves the read's error
+// in place).
+func readErrorNotOverwritten(c *Ctx, r *Report, rule string) {
+	r.rule(rule, 1, "the error Transfer.ReadMsg returns with a message is the read's own error or a value known non-nil")
+	fn := c.ssaFunc("Transfer.ReadMsg")
+	if fn == nil {
+		r.cerr(rule, "Transfer.ReadMsg", "function not found")
+		return
+	}
+	r.fn("Transfer.ReadMsg")
+	var readErr ssa.Value
+	for _, ci := range callsIn(fn, "(Conn).Read") {
+		if call, ok := ci.(*ssa.Call); ok {
+			for _, ref := range *call.Referrers() {
+				if ex, isEx := ref.(*ssa.Extract); isEx && ex.Index == 1 {
+					readErr = ex
+				}
+			}
+		}
+	}
+	if readErr == nil {
+		r.undecided(rule, "Transfer.ReadMsg", c.pos(fn.Pos()), "the read and its error were not found")
+		return
+	}
+	var bad []string
+	n := 0
+	var walk func(v ssa.Value, blk *ssa.BasicBlock, extra []Fact, depth int)
+	walk = func(v ssa.Value, blk *ssa.BasicBlock, extra []Fact, depth int) {
+		if v == readErr || depth > 6 {
+			return
+		}
+		if phi, ok := v.(*ssa.Phi); ok {
+			for i, e := range phi.Edges {
+				var ex []Fact
+				if ef, ok := edgeFact(phi.Block().Preds[i], phi.Block()); ok {
+					ex = append(ex, ef)
+				}
+				walk(e, phi.Block().Preds[i], ex, depth+1)
+			}
+			return
+		}
+		n++
+		if isNilConst(v) || !isErrorValue(fn, blk, v, extra...) {
+			bad = append(bad, fmt.Sprintf("%s (%s)", c.pos(v.Pos()), describeValue(v)))
+		}
+	}
+	for _, b := range fn.Blocks {
+		ret, ok := b.Instrs[len(b.Instrs)-1].(*ssa.Return)
+		if !ok || len(ret.Results) != 2 || isNilConst(ret.Results[0]) {
+			continue
+		}
+		walk(ret.Results[1], b, nil, 0)
+	}
+	r.check(len(bad) == 0, rule, "Transfer.ReadMsg:error", c.pos(fn.Pos()), "only replaced by another error", "the error returned with the message can be the value of a later step that may be nil (%s): with a TSIG provider set, an envelope whose frame was cut short (the read returned octets and an error) but whose signature still verifies is delivered with a nil error, and the transfer is reported complete", strings.Join(uniqStrings(bad), ", "))
+}
